@@ -57,7 +57,8 @@ def slim(case, rec):
 
 def run(ctx):
     po = C.proof_obligations(ctx.prop)
-    ncases = 200 if ctx.quick else 1500
+    fok, fout, _ = C.coq_make(["Findings/F4_kpcovr_score_blocks.vo"], timeout=600)
+    ncases = 500 if ctx.quick else 2500
     cases, recs, infos, ests = [], [], [], []
     st = dict(kernel=collections.Counter(), regressor=collections.Counter(), center=collections.Counter(),
               mixing=collections.Counter(), skipped=collections.Counter(), score_sets=collections.Counter(),
@@ -85,9 +86,9 @@ def run(ctx):
                 st["skipped"][info["skip"]] += 1
             else:
                 st["dead_columns"] += info["n_dead"] > 0
-                for k in resmax:
-                    if k != "res_yhat" or c["regressor"] != "pre_noW":
-                        resmax[k] = max(resmax[k], info[k])
+                for k in ("res_orth", "res_eig", "res_pen", "res_gpen", "res_yhat"):
+                    kk = "res_yhat_lstsq_W" if (k == "res_yhat" and c["regressor"] == "pre_noW") else k
+                    resmax[kk] = max(resmax.get(kk, 0.0), info[k])
     # ---- search: the property's equivalences executed on the implementation
     found = collections.OrderedDict()
     n_oracle_msgs = 0
@@ -140,12 +141,13 @@ def run(ctx):
         rep["cases_with_this_failure"] = len(lst)
         C.report_violation(ctx, "C05 fails on the implementation: " + msg, rep,
                            key=finding_key(key), found_input=True)
-    for i, fails in sorted(mismatched.items()):
+    only_corr = [i for i in sorted(mismatched) if i not in oracle_cases]
+    for i in only_corr[:3]:        # at most three replay files; the total is recorded in each
+        fails = mismatched[i]
         names = [check_name(p) for p in fails]
-        if i in oracle_cases:
-            continue       # already reported with a failing input through the oracle
         rep = slim(cases[i], recs[i])
         rep["failed_checks"] = names
+        rep["cases_with_a_correspondence_mismatch"] = len(only_corr)
         rep["note"] = "model and implementation disagree but the property oracle accepts the outputs"
         C.report_violation(ctx, "correspondence KernelPCovR model vs implementation broken: " + "; ".join(names[:3]),
                            rep, found_input=False)
@@ -172,6 +174,7 @@ def run(ctx):
     dist["oracle_hypothesis_residual_max"] = resmax
     dist["oracle_messages"] = {k: len(v) for k, v in found.items()}
     dist["coq_checks_per_fit"] = "7 + 4 per new-data set"
+    dist["findings_file_F4_compiles"] = bool(fok)
     samples = []
     for i in idx[:2]:
         c = cases[i]
